@@ -1,7 +1,8 @@
 (* Date.v — DATE_ADD / DATE_SUBTRACT / DATE_DIFF over fixed-length units and the
    RFC 3339 rendering / parsing of instants (pkg/stdlib/datetime/unit.go
    AddUnit, Nanosecond; add_subtract.go; diff.go; date.go; pkg/runtime/values/
-   date_time.go; Go's time.Time.Add / Sub / AddDate / Format / Parse).
+   date_time.go; Go's time.Time.Add / AddDate / Unix / Nanosecond / Format /
+   Parse).
    Definitions only; proofs in Proofs/DateProofs.v. *)
 From Ferret Require Export Base.
 Open Scope Z_scope.
@@ -20,8 +21,6 @@ Definition inst_ns (t : instant) : Z := fst t * 1000000000 + snd t.
 
 (* int64 arithmetic wraps (time.Duration is an int64 count of nanoseconds) *)
 Definition wrap64 (z : Z) : Z := (z + 2 ^ 63) mod 2 ^ 64 - 2 ^ 63.
-Definition max_duration : Z := 2 ^ 63 - 1.
-Definition min_duration : Z := - 2 ^ 63.
 
 (* the fixed-length units of datetime.Unit (Month and Year are not fixed-length) *)
 Inductive dunit : Type := UMs | USec | UMin | UHour | UDay | UWeek.
@@ -61,41 +60,30 @@ Definition date_add (t : instant) (n : Z) (u : dunit) : instant := add_unit t n 
 (* DATE_SUBTRACT: AddUnit(tm, -1*int(amount), u) *)
 Definition date_sub (t : instant) (n : Z) (u : dunit) : instant := add_unit t (wrap64 (- n)) u.
 
-(* Time.Sub: t - u as a Duration, saturating at the largest / smallest
-   Duration (about 292.47 years).  (Go computes the wrapped difference and
-   keeps it only if adding it back to u gives t; otherwise it saturates.) *)
-Definition time_sub (a b : instant) : Z :=
-  let d := (fst a - fst b) * 1000000000 + (snd a - snd b) in
-  if d >? max_duration then max_duration
-  else if d <? min_duration then min_duration
-  else d.
-
-(* float64(int64): exact up to 2^53, round to nearest even above *)
-Definition f64_round (z : Z) : Z :=
-  let a := Z.abs z in
-  if a <=? 2 ^ 53 then z
-  else
-    let sh := Z.log2 a - 52 in
-    let q := a / 2 ^ sh in
-    let r := a mod 2 ^ sh in
-    let half := 2 ^ (sh - 1) in
-    let q' := if r <? half then q
-              else if half <? r then q + 1
-              else if Z.even q then q else q + 1 in
-    Z.sgn z * (q' * 2 ^ sh).
+(* wholeUnits(sec, nsec, unitNsec) of diff.go: how many whole units fit into
+   sec seconds and nsec nanoseconds (sec >= 0, 0 <= nsec < 10^9), in int64
+   arithmetic.  A unit is a whole number of seconds (integer division of the
+   seconds, which truncates; the operands are never negative) or divides a
+   second (milliseconds: the product and the sum are int64 and wrap).  The
+   divisors are non-zero constants for every unit, so no division faults. *)
+Definition whole_units (sec nsec unit_nsec : Z) : Z :=
+  if unit_nsec >=? 1000000000 then Z.quot sec (Z.quot unit_nsec 1000000000)
+  else wrap64 (wrap64 (sec * Z.quot 1000000000 unit_nsec) + Z.quot nsec unit_nsec).
 
 (* DATE_DIFF(date1, date2, unit) with asFloat = false: 0 for equal instants,
-   otherwise the later minus the earlier (so never negative), converted to
-   float64, divided by the unit and truncated.  SIMPLIFICATION: the float64
-   division followed by int() is modelled by the integer quotient of the
-   (float64-rounded) difference; the two coincide whenever the difference is a
-   multiple of the unit (every case of the property) and on the saturated
-   differences. *)
+   otherwise the later minus the earlier (so never negative), taken as
+   later.Unix() - earlier.Unix() seconds and the difference of the two
+   Nanosecond() fields, with a borrow of one second when that is negative;
+   then wholeUnits.  No Duration is involved, so nothing saturates.  (The
+   asFloat = true result is not modelled.) *)
 Definition date_diff (t1 t2 : instant) (u : dunit) : Z :=
   if inst_eqb t1 t2 then 0
   else
-    let d := if inst_after t1 t2 then time_sub t1 t2 else time_sub t2 t1 in
-    Z.quot (f64_round d) (unit_ns u).
+    let '(later, earlier) := if inst_after t1 t2 then (t1, t2) else (t2, t1) in
+    let sec := wrap64 (fst later - fst earlier) in
+    let nsec := snd later - snd earlier in
+    if nsec <? 0 then whole_units (wrap64 (sec - 1)) (nsec + 1000000000) (unit_ns u)
+    else whole_units sec nsec (unit_ns u).
 
 (* ------------------------------------------------------------------ calendar *)
 (* proleptic Gregorian calendar in 400-year eras of 146097 days; March-based
